@@ -102,14 +102,14 @@ KEYPOLL = 3
 KINDS = {
     'fill': 0, 'goto': 1, 'gosub': 1, 'return': 0, 'return_n': 1, 'if_else': 2, 'if_then': 1,
     'if_goto': 2, 'on_goto': 2, 'on_gosub': 2, 'restore': 1, 'data': 0, 'onerr': 1, 'onerr0': 0,
-    'error': 0, 'resume_n': 1, 'resume_next': 0, 'erl_eq': 1, 'run_n': 1, 'onkey': 1,
+    'error': 0, 'resume_n': 1, 'resume_next': 0, 'erl_eq': 1, 'run_n': 1, 'onkey': 1, 'onkey_off': 1,
     'ontimer': 1, 'end': 0, 'renum': 0,
 }
 FULL = [k for k in KINDS if k not in ('fill', 'renum')]
 CORE = ['goto', 'gosub', 'return', 'return_n', 'if_else', 'on_gosub', 'restore', 'data', 'onerr',
-        'onerr0', 'error', 'resume_n', 'resume_next', 'erl_eq', 'onkey', 'end']
-CORE_QUICK = ['goto', 'gosub', 'return', 'onerr', 'error', 'resume_next', 'onkey', 'end']
-TRAP = ['onerr', 'error', 'resume_n', 'resume_next', 'gosub', 'return', 'onkey', 'end']
+        'onerr0', 'error', 'resume_n', 'resume_next', 'erl_eq', 'onkey', 'onkey_off', 'end']
+CORE_QUICK = ['goto', 'gosub', 'return', 'onerr', 'error', 'resume_next', 'onkey', 'onkey_off', 'end']
+TRAP = ['onerr', 'error', 'resume_n', 'resume_next', 'gosub', 'return', 'onkey', 'onkey_off', 'end']
 
 
 def stmt_parts(kind, idx, targets, renum_args=None):
@@ -157,6 +157,9 @@ def stmt_parts(kind, idx, targets, renum_args=None):
         return [p + b':RUN ', t[0]]
     if kind == 'onkey':
         return [p + b':ON KEY(1) GOSUB ', t[0], b':KEY(1) ON']
+    if kind == 'onkey_off':
+        # a trap that is defined but switched off when RENUM runs; a continuation switches it on
+        return [p + b':ON KEY(1) GOSUB ', t[0], b':KEY(1) ON:KEY(1) OFF']
     if kind == 'ontimer':
         return [p + b':ON TIMER(9) GOSUB ', t[0]]
     if kind == 'end':
@@ -183,7 +186,7 @@ def missing_targets(ns, with_zero):
 
 # after these keywords the number 0 is not a line reference (ON ERROR GOTO 0 / ON KEY(n) GOSUB 0
 # switch the trap off, RESUME 0 retries, RETURN 0 is unspecified): target 0 is not generated
-ZERO_SPECIAL = ('onerr', 'onkey', 'ontimer', 'resume_n', 'return_n', 'erl_eq')
+ZERO_SPECIAL = ('onerr', 'onkey', 'onkey_off', 'ontimer', 'resume_n', 'return_n', 'erl_eq')
 
 
 def statements(ns, kinds, with_zero, lines_only=False):
@@ -354,6 +357,10 @@ def continuations(program, spec):
         conts.append(('error',))
     if 'onkey' in kinds:
         conts.append(('goto', nums[0], KEYPOLL))
+    if 'onkey_off' in kinds:
+        # enter below the defining line where there is one, so that the definition is not simply repeated
+        k = kinds['onkey_off']
+        conts.append(('goto-keyon', nums[k + 1 if k + 1 < len(nums) else 0], KEYPOLL))
     if 'renum' in kinds and kinds['renum'] + 1 < len(nums):
         conts.append(('goto', nums[kinds['renum'] + 1], None))
     return conts
@@ -366,7 +373,7 @@ def _do_cont(s, cont, mapping):
     if keypoll is not None:
         s.verif_inputs.schedule[keypoll] = [H.key_event(*F1)]
     try:
-        return R.run(s, b'GOTO %d' % mapping.get(line, line))
+        return R.run(s, (b'KEY(1) ON:' if cont[0] == 'goto-keyon' else b'') + b'GOTO %d' % mapping.get(line, line))
     finally:
         if keypoll is not None:
             del s.verif_inputs.schedule[keypoll]
